@@ -28,9 +28,10 @@ META = dict(
     "skip_tables / skip_reference_sequence. Oracle: a proper prefix raises (EOFError only for the empty "
     "prefix); a structural alteration raises or (known findings) loads an object classified narrowly; a "
     "data alteration raises or yields a well-formed object that round-trips and, for tskit.load, "
-    "satisfies the validity predicate and the positional tree model. distinct_nontrivial counts distinct "
-    "(file, fault-class) pairs: truncation regions {header, descriptors, keys, data}, structural field "
-    "names, data columns hit.",
+    "satisfies the validity predicate and the positional tree model. An evaluation is one generated file "
+    "with ALL its faults of the sub-check's kind (thousands of loads); distinct_nontrivial counts distinct "
+    "(file, loader) cases; the numbers of individual faults per header/descriptor field and per data "
+    "column are in coverage.counters.",
     assumptions=[
         "independent parser of the kastore layout in vf/props/c10.py (header 64 B, 64 B descriptors, packed keys, 8-byte aligned arrays)",
         "validity predicate vf/validity.py and positional model vf/model.py for objects returned after data corruption",
